@@ -41,6 +41,9 @@ class TLCResult:
             self.violated = 'Deadlock'
         if re.search(r'Error: Temporal properties were violated', out):
             self.violated = 'Temporal'
+        m3 = re.search(r'Error: Temporal property (\S+) was violated', out)
+        if m3:
+            self.violated = m3.group(1)
         self.finished = 'Model checking completed' in out or 'Finished in' in out
         self.ok = (rc == 0) and self.violated is None and 'Error:' not in out
 
